@@ -1124,9 +1124,13 @@ where
             Some(b'u') => {
                 if self.read.remain() < 6 {
                     return perr!(self, EofWhileParsing);
-                } else {
-                    self.read.eat(5);
                 }
+                // `u` must be followed by four hex digits
+                let hex = self.read.peek_n(5).map(|s| &s[1..]).unwrap_or_default();
+                if !hex.iter().all(|c| c.is_ascii_hexdigit()) {
+                    return perr!(self, InvalidEscape);
+                }
+                self.read.eat(5);
             }
             Some(c) => {
                 if self.read.next().is_none() {
